@@ -42,11 +42,12 @@ type limCase struct {
 	Order   []int // release order of the gates (indices into Tasks)
 	Handler bool
 	Procs   int
+	Timed   bool // after the first Wait() the idle Limiter is also waited on with a timeout (returns at once)
 }
 
 func gen(t *rapid.T) limCase {
 	c := limCase{Limit: rapid.OneOf(rapid.IntRange(1, 6), rapid.IntRange(-2, 6)).Draw(t, "limit"), Handler: rapid.IntRange(0, 3).Draw(t, "handler") != 0,
-		Procs: rapid.SampledFrom([]int{1, 2, 4, 16}).Draw(t, "procs")}
+		Procs: rapid.SampledFrom([]int{1, 2, 4, 16}).Draw(t, "procs"), Timed: rapid.Bool().Draw(t, "timed")}
 	n := rapid.IntRange(1, 24).Draw(t, "ntasks")
 	for i := 0; i < n; i++ {
 		c.Tasks = append(c.Tasks, task{B: rapid.SampledFrom([]int{bReturn, bYield, bGate, bGate, bGate, bPanicBeforeGate, bPanicAfterGate, bPanicNow}).Draw(t, "b"), K: rapid.IntRange(0, 5).Draw(t, "k")})
@@ -365,6 +366,14 @@ func run(c limCase, r *pb.Rec) error {
 			return fmt.Errorf("panic handler received %v, panics raised %v", got, wantPanics)
 		}
 	}
+	if c.Timed {
+		// the timed form on an idle Limiter returns at once and leaves nothing behind; the untimed Wait of the
+		// next phase must still block (only done while idle: a timed Wait that expires leaves a goroutine inside
+		// WaitGroup.Wait, and submitting again then is a documented WaitGroup misuse in the library as it is)
+		l.Wait(2 * time.Second)
+		l.Wait(time.Millisecond)
+		r.Class("timed Wait on the idle Limiter")
+	}
 	// phase 3: after the panics, n more gate-blocked functions must all get inside at the same time
 	base := len(c.Tasks)
 	var more []func()
@@ -427,7 +436,7 @@ func run(c limCase, r *pb.Rec) error {
 func TestLimiter(t *testing.T) {
 	st := pb.Stats("limiter")
 	st.SetRule("scenarios: limit -2..6 (below 1 => 3), 1..24 functions that return / yield / park on a harness gate / panic (before or after the gate), drawn gate release order, with or without panic handler, GOMAXPROCS 1..16; the harness releases one gate at a time, each time from a quiescent state, and after Wait() submits n more parked functions that must all run concurrently; monitors: concurrency never above n, exactly-once execution, Wait() only after all finished, handler receives every panic value, no slot leaked (state-based: submitter parked in the Limiter's channel send while fewer than n functions hold slots); schedules inside the Limiter are sampled, not owned; non-trivial = a panic followed by a saturation phase")
-	st.Require("saturated: submitter blocked with all slots held", "panics raised", "limit below 1 (default 3)", "panic without handler", "limit reached")
+	st.Require("timed Wait on the idle Limiter", "saturated: submitter blocked with all slots held", "panics raised", "limit below 1 (default 3)", "panic without handler", "limit reached")
 	// the default panic handler prints to stdout: keep the test output clean (swapped once, not per case)
 	if dn, err := os.OpenFile(os.DevNull, os.O_WRONLY, 0); err == nil {
 		old := os.Stdout
